@@ -314,6 +314,7 @@ func init() {
 		Assumptions: []string{"clients follow the bridge protocol (unique non-zero client message ids, same id on retry)", "PostMessageCooloff=0 installed through POST /config"},
 		Units: []unit{
 			{Name: "node", Pkg: ".", Harness: "main", Run: "^TestVerifC05$", Rapid: true, Quick: 320, Thorough: 6000, QuickTimeoutS: 300, ThoroughTimeoutS: 3400},
+			{Name: "cluster", Pkg: ".", Harness: "main", Run: "^TestVerifC05Cluster$", Rapid: true, Quick: 8, Thorough: 128, Shards: 8, MinPerShard: 1, Weight: 2, NeedsBinary: true, QuickTimeoutS: 600, ThoroughTimeoutS: 3400},
 		},
 	})
 }
